@@ -124,6 +124,21 @@ CLAIMED = {
             "(checked against urwid's calc_width), program generators (re-checked by GridOps!InDomain in TLC). Leaves <= 4x3, results <= 14x10; "
             "marks share their base character's attribute; shortcuts/children not modelled. Known finding: content_delta keeps a view that moved.",
             "DESIGN.md §4 C02"),
+    "C18": ("TLA+ contract AttrSpecOps.tla (xterm 256/88-colour and basic tables defined by formula, nearest-entry sets, Parse = ColourSet over "
+            "structured descriptions, Describe, ColourRGB, smallest depth) whose laws AttrSpec.tla model-checks with TLC over the whole finite "
+            "domain at the five depths (idempotence, exact values preserved, per-channel nearest = Euclidean nearest, smallest depth minimal; "
+            "wrong variants refuted, including the gray-ramp typo the code had); TLC trace validation (AttrSpecTrace.tla) of every construction of the "
+            "real urwid.display.common.AttrSpec",
+            "TLC judges, one named clause per sentence, every recorded construction at depths 1/16/88/256/2^24: all basic names, h0..h255, "
+            "#000..#fff, g0..g100, g#00..g#ff each as foreground and as background, all 1957 ordered subsets of the six settings, seeded #rrggbb "
+            "samples, unknown names, duplicated settings, two colours, colours beyond the depth, and mutated/junk text: stored palette entry is a "
+            "nearest one (ties free), exact values kept, get_rgb_values equals the xterm tables, colors is the smallest depth, the reported "
+            "descriptions rebuild an equal object with equal hash and identical descriptions, == means same colours and settings, and rejections "
+            "raise AttrSpecError only.",
+            "Trusted: TLC, AttrSpecOps.tla tables/grammar, the text renderer and reported-text projection in vf/props/c18.py. Gray values use the "
+            "documented gray scale (ramp + cube black/white); '#rrggbb' at 88/256 colours and the two readings of 'smallest depth' are reported "
+            "as DIVERGENCE, not judged. Four defects found and repaired (findings/C18.json).",
+            "DESIGN.md §4 C18"),
 }
 
 NOT_APPLICABLE = {}
